@@ -1,1 +1,161 @@
-From E2V Require Import Bitmap.RBModel Bitmap.BAModel.
+(* The generic bitmap layer over any correct back end refines the same layer
+   over the reference set of integers: identical results for every operation
+   sequence. *)
+From E2V Require Import Bitmap.BmGen Bitmap.FSetLemmas Bitmap.BackendOk.
+Local Open Scope N_scope.
+
+Definition op_pre (g : geom) (o : op) : Prop :=
+  match o with
+  | GetRange a n => aligned (g_start g) a
+  | SetRange a n bits => aligned (g_start g) a /\ n mod 8 = 0 /\ n <= N.of_nat (length bits)
+  | _ => True
+  end.
+
+Section Sim.
+  Variable B : backend.
+  Variable Inv : T B -> Prop.
+  Variable mem : T B -> N -> bool.
+  Hypothesis OK : backend_ok B Inv mem.
+  Variable g : geom.
+
+  Definition R (t : T B) (m : fset) := Inv t /\ forall j, mem t j = m j.
+
+  Definition Rg (s : gstate B) (r : gstate FSet) :=
+    R (fst s) (fst r) /\
+    match snd s, snd r with
+    | Some a, Some b => R a b
+    | None, None => True
+    | _, _ => False
+    end.
+
+  Lemma cmp_loop_sim : forall fuel i t1 t2 m1 m2,
+    R t1 m1 -> R t2 m2 ->
+    let '(t1', t2', e) := cmp_loop B g fuel i t1 t2 in
+    let '(m1', m2', e') := cmp_loop FSet g fuel i m1 m2 in
+    R t1' m1' /\ R t2' m2' /\ e = e'.
+  Proof.
+    induction fuel; intros i t1 t2 m1 m2 R1 R2; cbn [cmp_loop].
+    - auto.
+    - destruct R1 as [I1 E1], R2 as [I2 E2].
+      destruct (ok_test _ _ _ OK t1 (i - g_start g) I1) as (A1 & A2 & A3).
+      destruct (ok_test _ _ _ OK t2 (i - g_start g) I2) as (B1 & B2 & B3).
+      destruct (b_test B t1 (i - g_start g)) as [t1' r1]. destruct (b_test B t2 (i - g_start g)) as [t2' r2].
+      cbn [fst snd] in *. subst r1 r2. cbn [b_test FSet].
+      rewrite E1, E2. destruct (Bool.eqb (m1 (i - g_start g)) (m2 (i - g_start g))).
+      + apply IHfuel; split; auto; intros j; [rewrite A3|rewrite B3]; auto.
+      + split3; [split|split|]; auto; intros j; [rewrite A3|rewrite B3]; auto.
+  Qed.
+
+  Lemma shr_mono a b : a <= b -> shr g a <= shr g b.
+  Proof.
+    intros H. unfold shr. rewrite !N.shiftr_div_pow2. apply N.div_le_mono; auto.
+    apply N.pow_nonzero. lia.
+  Qed.
+
+  Theorem gen_step_sim s r o :
+    Rg s r -> op_pre g o ->
+    Rg (fst (gen_step B g s o)) (fst (gen_step FSet g r o)) /\
+    snd (gen_step B g s o) = snd (gen_step FSet g r o).
+  Proof.
+    destruct s as [t snap], r as [m msnap]. intros [[I E] RS] P. cbn [fst snd] in *.
+    assert (RT : R t m) by (split; auto).
+    destruct o; cbn [gen_step].
+    - (* Mark *)
+      destruct (in_range g (shr g a)); [|split; [split; auto|reflexivity]].
+      destruct (ok_mark _ _ _ OK t (shr g a - g_start g) I) as (A1 & A2 & A3).
+      destruct (b_mark B t (shr g a - g_start g)) as [t' r']. cbn [fst snd b_mark FSet] in *.
+      split; [split; cbn [fst snd]; auto|rewrite A2, E; reflexivity].
+      split; auto. intros j. rewrite A3, E. reflexivity.
+    - (* Unmark *)
+      destruct (in_range g (shr g a)); [|split; [split; auto|reflexivity]].
+      destruct (ok_unmark _ _ _ OK t (shr g a - g_start g) I) as (A1 & A2 & A3).
+      destruct (b_unmark B t (shr g a - g_start g)) as [t' r']. cbn [fst snd b_unmark FSet] in *.
+      split; [split; cbn [fst snd]; auto|rewrite A2, E; reflexivity].
+      split; auto. intros j. rewrite A3, E. reflexivity.
+    - (* Test *)
+      destruct (in_range g (shr g a)); [|split; [split; auto|reflexivity]].
+      destruct (ok_test _ _ _ OK t (shr g a - g_start g) I) as (A1 & A2 & A3).
+      destruct (b_test B t (shr g a - g_start g)) as [t' r']. cbn [fst snd b_test FSet] in *.
+      split; [split; cbn [fst snd]; auto|rewrite A2, E; reflexivity].
+      split; auto. intros j. rewrite A3, E. reflexivity.
+    - (* MarkRange *)
+      destruct (conv_range g a n) as [c k]. destruct (range_ok g c k); [|split; [split; auto|reflexivity]].
+      destruct (ok_mark_ext _ _ _ OK t (c - g_start g) k I) as (A1 & A3).
+      split; [split; cbn [fst snd b_mark_ext FSet]; auto|reflexivity].
+      split; auto. intros j. rewrite A3, E. reflexivity.
+    - (* UnmarkRange *)
+      destruct (conv_range g a n) as [c k]. destruct (range_ok g c k); [|split; [split; auto|reflexivity]].
+      destruct (ok_unmark_ext _ _ _ OK t (c - g_start g) k I) as (A1 & A3).
+      split; [split; cbn [fst snd b_unmark_ext FSet]; auto|reflexivity].
+      split; auto. intros j. rewrite A3, E. reflexivity.
+    - (* TestRange *)
+      destruct (n =? 1).
+      + destruct (in_range g (shr g a)); [|split; [split; auto|reflexivity]].
+        destruct (ok_test _ _ _ OK t (shr g a - g_start g) I) as (A1 & A2 & A3).
+        destruct (b_test B t (shr g a - g_start g)) as [t' r']. cbn [fst snd b_test FSet] in *.
+        split; [split; cbn [fst snd]; auto|rewrite A2, E; reflexivity].
+        split; auto. intros j. rewrite A3, E. reflexivity.
+      + destruct (conv_range g a n) as [c k]. destruct (range_ok g c k); [|split; [split; auto|reflexivity]].
+        split; [split; auto|]. cbn [snd b_test_clear FSet].
+        rewrite (ok_test_clear _ _ _ OK t _ _ I), (f_all_clear_ext _ _ E). reflexivity.
+    - (* FindZero *)
+      destruct ((shr g a <? g_start g) || (g_end g <? shr g b) || (b <? a)) eqn:C;
+        [split; [split; auto|reflexivity]|].
+      apply orb_false_elim in C. destruct C as [C C3]. apply orb_false_elim in C. destruct C as [C1 C2].
+      apply N.ltb_ge in C1, C2, C3. pose proof (shr_mono _ _ C3).
+      rewrite (ok_ffz _ _ _ OK t _ _ I) by lia. cbn [b_ffz FSet].
+      rewrite (f_scan_ext _ _ false E).
+      destruct (f_scan m false _ _); (split; [split; auto|reflexivity]).
+    - (* FindSet *)
+      destruct ((shr g a <? g_start g) || (g_end g <? shr g b) || (b <? a)) eqn:C;
+        [split; [split; auto|reflexivity]|].
+      apply orb_false_elim in C. destruct C as [C C3]. apply orb_false_elim in C. destruct C as [C1 C2].
+      apply N.ltb_ge in C1, C2, C3. pose proof (shr_mono _ _ C3).
+      rewrite (ok_ffs _ _ _ OK t _ _ I) by lia. cbn [b_ffs FSet].
+      rewrite (f_scan_ext _ _ true E).
+      destruct (f_scan m true _ _); (split; [split; auto|reflexivity]).
+    - (* GetRange *)
+      split; [split; auto|]. cbn [snd b_get FSet].
+      rewrite (ok_get _ _ _ OK t _ _ n I P), (f_bits_ext _ _ E). reflexivity.
+    - (* SetRange *)
+      destruct P as (P1 & P2 & P3).
+      assert (L : N.of_nat (length (firstn (N.to_nat n) bits)) = n) by (rewrite firstn_length; lia).
+      destruct (ok_set _ _ _ OK t (g_start g) a (firstn (N.to_nat n) bits) I P1) as (A1 & A3); [rewrite L; auto|].
+      split; [split; cbn [fst snd b_set FSet]; auto|reflexivity].
+      split; auto. intros j. rewrite A3, E. reflexivity.
+    - (* Clear *)
+      destruct (ok_clear _ _ _ OK t I) as (A1 & A3).
+      split; [split; cbn [fst snd b_clear FSet]; auto|reflexivity]. split; auto.
+    - (* SetPadding *)
+      destruct (ok_mark_ext _ _ _ OK t (g_end g + 1 - g_start g) (g_real_end g - g_end g) I) as (A1 & A3).
+      split; [split; cbn [fst snd b_mark_ext FSet]; auto|reflexivity].
+      split; auto. intros j. rewrite A3, E. reflexivity.
+    - (* Snapshot *)
+      destruct (ok_copy _ _ _ OK t I) as (A1 & A2 & A3).
+      destruct (b_copy B t) as [t' c]. cbn [fst snd b_copy FSet] in *.
+      split; [|reflexivity]. split; cbn [fst snd].
+      + split; auto. intros j. rewrite (proj1 (A3 j)). auto.
+      + split; auto. intros j. rewrite (proj2 (A3 j)). auto.
+    - (* Compare *)
+      destruct snap as [sn|], msnap as [ms|]; try tauto; [|split; [split; auto|reflexivity]].
+      pose proof (cmp_loop_sim (N.to_nat (g_end g + 1 - g_start g)) (g_start g) t sn m ms RT RS) as CL.
+      destruct (cmp_loop B g _ _ t sn) as [[t1 t2] e]. destruct (cmp_loop FSet g _ _ m ms) as [[m1 m2] e'].
+      destruct CL as (C1 & C2 & ->). split; [split; auto|reflexivity].
+  Qed.
+
+  Theorem run_sim : forall ops s r,
+    Rg s r -> Forall (op_pre g) ops -> run B g s ops = run FSet g r ops.
+  Proof.
+    induction ops as [|o ops IH]; intros s r RG F; cbn [run]; [reflexivity|].
+    inversion F as [|? ? P F']; subst.
+    destruct (gen_step_sim s r o RG P) as [RG' E].
+    destruct (gen_step B g s o) as [s' x]. destruct (gen_step FSet g r o) as [r' y].
+    cbn [fst snd] in *. subst. f_equal. apply IH; auto.
+  Qed.
+
+  Corollary run0_sim ops : Forall (op_pre g) ops -> run0 B g ops = run0 FSet g ops.
+  Proof.
+    intros F. apply run_sim; auto. destruct (ok_empty _ _ _ OK) as [A1 A2].
+    split; cbn [fst snd]; auto. split; auto.
+  Qed.
+End Sim.
